@@ -335,6 +335,7 @@ def run(chk, prog, tier):
     check_offsets_monotone(chk, prog)
     check_stale_count(chk, prog)
     check_stale_counted(chk, prog)
+    check_merge_order(chk, prog)
     check_notify(chk, prog)
     check_clear_resets(chk, prog)
     from . import join_common, scan_common
@@ -620,6 +621,38 @@ def check_stale_counted(chk, prog):
                       "a row is marked stale through the shared handle on a path that never advances the stale counter: stale_rows undercounts, and once it reads 0 "
                       "observers take the raw fast path and return superseded rows", c.loc)
     chk.floor(R, n, 3, "set_stale_shared call sites (parallel_delete, parallel_insert x2)")
+
+
+def check_merge_order(chk, prog):
+    R = chk.rule("R-MERGE-ORDER", "SortedWritesTable's Table::merge applies the staged removals before the staged insertions (do_delete dominates do_insert, both on every path, "
+                 "maybe_rehash after both), and TableChange{removed, added} is built from their two results in that order. A rebuild stages `remove old key` and `insert canonical row` "
+                 "in one batch; when the two keys coincide, applying the insertion first would delete the freshly inserted row")
+    f = prog.need(f"<{SWT} as egglog_core_relations::table_spec::Table>::merge")
+    de = [c for c in f.calls if c.p.endswith("::do_delete")]
+    ins = [c for c in f.calls if c.p.endswith("::do_insert")]
+    rh = [c for c in f.calls if c.p.endswith("::maybe_rehash")]
+    ok = len(de) == 1 and len(ins) == 1 and bool(rh)
+    if ok:
+        ok = f.dominates(de[0].bb, ins[0].bb) and all(f.dominates(ins[0].bb, r.bb) for r in rh)
+        # both on every path to the return
+        def on_every_path(bb):
+            return bb == 0 or not any(f.term(b)[0] == "ret" for b in f.reach_avoiding_from_entry({bb}))
+        ok = ok and on_every_path(de[0].bb) and on_every_path(ins[0].bb)
+        # TableChange fields
+        agg = [(i, s2) for i, j, s2 in f.assigns() if s2[2][0] == "agg" and s2[2][1] == "adt" and str(s2[2][2]).endswith("TableChange")]
+        if agg:
+            adt = prog.adts.get(agg[0][1][2][2])
+            names = [fd["name"] for fd in adt["variants"][0]["fields"]] if adt else []
+            for k, o in enumerate(agg[0][1][2][4]):
+                src = f.origins(o)
+                want = de[0].bb if names[k] == "removed" else ins[0].bb if names[k] == "added" else None
+                if want is not None:
+                    ok = ok and bool(src) and all(a[0] == "call" and a[2] == want for a in src)
+        else:
+            ok = False
+    chk.judge(ok, R, f"{SWT}::merge", "removals, then insertions, then the optional rehash; the change report is built from both results",
+              "Table::merge of SortedWritesTable no longer applies removals before insertions (or skips one of them / reports the wrong result): a re-canonicalised row whose key did not "
+              "change is deleted right after being inserted, or a change is reported as no change", f.loc)
 
 
 def rv_ops(rv):
